@@ -56,6 +56,9 @@ var propSpecs = map[string]*PropSpec{
 		{"cmd/benchstat", "textcsv", "text and CSV renderings of the same generated inputs under five flag settings: same tables, row labels, intervals, deltas, comparison strings and warning messages; every scaled number equals the CSV value to within half a unit of its last printed digit; header rules at the column boundaries on every header line; numbers of a column end at one offset and lie inside the column's rules — Table.ToText/ToCSV and the scaler are not under contract"}}},
 	"C17": {ID: "C17", Pkgs: []string{"./benchstat", "./internal/stats"}, BoundedChecks: []boundedSpec{
 		{"benchstat", "legacy", "whole Tables() outputs against an independent recomputation: outlier fence (R8 quartiles) and retained values in input order, min<=mean<=max, the significance gate / percentage / direction / note for every pair of samples and each delta test, first-appearance and stable sort order, geomean row — Tables, computeStats and addGeomean are not under contract"}}},
+	"C18": {ID: "C18", Pkgs: []string{"./benchseries"}, BoundedChecks: []boundedSpec{
+		{"benchseries", "series", "the real Builder fed one generated result set in five orders (in order, reversed, three shuffles): identical tables, benchmarks, series, hash pairs, samples and bootstrap summaries for every order; the samples of every series point equal an independent selection of the matching measurements (latest experiment under the replace policy, concatenation under combine); summaries present exactly when there is a denominator, reproducible, low <= centre <= high, all inside [min nu / max de, max nu / min de]; percentile and median on sorted slices against the order statistics, the percentile position inside the slice for every p < 1 — Builder.Add and AllComparisonSeries (nested maps, map iteration) are not under contract"},
+		{"benchseries", "dates", "NormalizeDateString on random instants in both accepted formats and several zone offsets: one string per instant, ParseNormalizedDateString gives the instant back, string order equals time order (sub-second parts included) — time.Parse/Format are opaque to the verifier"}}},
 	"C19": {ID: "C19", Pkgs: []string{"./storage/db", "./storage/query", "./storage/benchfmt"}, BoundedChecks: []boundedSpec{
 		{"storage/db", "merge", "pairs and triples of query parts on one key evaluated by brute force (conjunction semantics, contradiction detection), and parseQuery on multi-term queries"},
 		{"analysis/app", "roundtrip", "a label value quoted by addToQuery is split back by SplitWords into exactly the original word, for every short string over the characters that matter to quoting"}}},
@@ -94,6 +97,18 @@ func stableLabel(l string) string {
 		l = pathSuffix.ReplaceAllString(l, "")
 	}
 	return shortKey(l)
+}
+
+var ensuresClause = regexp.MustCompile(`^(.*/ensures/ensures#\d+)`)
+
+// findingLabel is the label under which a known finding is recorded: the stable
+// label, except that a postcondition keeps its clause number (so that a finding on
+// one clause of a contract does not cover the other clauses).
+func findingLabel(l string) string {
+	if m := ensuresClause.FindString(l); m != "" {
+		return shortKey(m)
+	}
+	return stableLabel(l)
 }
 
 type fnEvidence struct {
@@ -153,6 +168,11 @@ func runProperty(repo, lib, prop, tier string) int {
 		return 2
 	}
 	known := loadKnownFindings(filepath.Join(verifDir, "known_findings.json"))
+	for _, kf := range known {
+		if kf.Property == prop && kf.Status == "known" && kf.Bounded == "" {
+			NoRetryLabels[kf.Obligation] = true
+		}
+	}
 
 	// carriers: tagged contracts, then everything they use
 	var queue []string
@@ -235,7 +255,7 @@ func runProperty(repo, lib, prop, tier string) int {
 			isKnown := false
 			if o.Status != "discharged" {
 				for i, kf := range known {
-					if kf.Property == prop && kf.Status == "known" && kf.Obligation == stableLabel(o.Label) {
+					if kf.Property == prop && kf.Status == "known" && (kf.Obligation == stableLabel(o.Label) || kf.Obligation == findingLabel(o.Label)) {
 						isKnown = true
 						knownHit[i] = true
 					}
